@@ -12,6 +12,7 @@ case "$CHANGE" in
   -R:*) git -C /repo show "${CHANGE#-R:}" | git -C "$WT" apply -R || exit 3 ;;
   *) git -C "$WT" apply "$CHANGE" || exit 3 ;;
 esac
+exec 9>/verif/.check.lock; flock 9
 cd /verif/harness && VERIF_REPO=$WT sh gen_gomod.sh >/dev/null 2>&1 && go test -c -tags verif -o "$WT.test" . ; RC=$?
 VERIF_REPO=/repo sh gen_gomod.sh >/dev/null 2>&1
 exit $RC
